@@ -770,11 +770,33 @@ def run_f4(ctx, batch):
         safe(ctx, "f4", lambda: check_full(ctx, batch, mk_full(base), corridor(n), True, base))
 
 
+def run_churn(ctx, batch, n, do_model=True):
+    """short-lived mazes: generate, tokenize, judge, DISCARD — again and again with a few fixed tokenizers, so that later mazes are
+    allocated where earlier ones lived (anything remembered per maze object, per address or per maze value shows here), and each
+    maze is tokenized twice in a row by the same tokenizer (the second answer must describe the same maze)"""
+    import gc
+    cts, ats, pts, _ = space(ctx)
+    toks = []
+    for cj in sample_cfgs(ctx, 6):
+        toks.append((cj, mk_full(cj)))
+    for i in range(n):
+        g = ctx.rng.randint(2, 5)
+        m = as_kind(ctx, gen_lattice(ctx, g, cyclic=bool(i % 2)), ctx.rng.choice(["plain", "targeted", "solved"]))
+        for cj, tok in toks[: 3 if i % 2 else 6]:
+            safe(ctx, "churn", lambda: check_full(ctx, batch, tok, m, do_model and i < 12, cj))
+            safe(ctx, "churn", lambda: check_full(ctx, batch, tok, m, False, cj))
+        ctx.count("churn_mazes")
+        del m
+        if i % 5 == 0: gc.collect()
+        if [v for v in ctx.violations if v["key"] != F4_KEY]: return
+
+
 def run(ctx):
     warnings.filterwarnings("ignore")
     seed_all(ctx)
     batch = Batch(ctx)
     check_vocab(ctx)
+    run_churn(ctx, batch, 40 if ctx.quick else 600)
     if ctx.quick:
         run_sweeps(ctx, batch, 2, 3, 5)
         run_full(ctx, batch, 360, 2, 7)
@@ -795,6 +817,8 @@ def search(ctx):
     before = len([v for v in ctx.violations if v["key"] != F4_KEY])
     def found():
         return len([v for v in ctx.violations if v["key"] != F4_KEY]) > before
+    run_churn(ctx, batch, 150, do_model=False)
+    if found(): return
     cts, ats, pts, _ = space(ctx)
     adj_m, path_m = sweep_mazes(ctx, 6, 6, 7)
     for ct in cts:
